@@ -4,7 +4,8 @@
 (* lexeme classes, which texts are well-formed lexemes of a class, which   *)
 (* token type a lexeme must be reported with, and when two lexemes may be  *)
 (* written next to each other without the lexer being able to merge them.  *)
-(* kind \in {"generic", "expression"}; cls \in {"word", "keyword",         *)
+(* kind \in {"generic", "expression", "expression-custom" (= expression plus  *)
+(* the user-registered symbols -> => -- -=)}; cls \in {"word", "keyword",         *)
 (* "integer", "float", "quoted", "dquoted", "comment", "ws", "symbol"}.    *)
 (***************************************************************************)
 EXTENDS Integers, Sequences
@@ -24,6 +25,7 @@ Keywords == {<<65, 78, 68>>, <<79, 82>>, <<78, 79, 84>>, <<88, 79, 82>>, <<76, 7
 UpperSeq(s) == [i \in 1 .. Len(s) |-> Upper(s[i])]
 MultiSymbols(kind) == IF kind = "generic" THEN {<<60, 62>>, <<60, 61>>, <<62, 61>>}
                       ELSE {<<60, 61>>, <<62, 61>>, <<60, 62>>, <<33, 61>>, <<62, 62>>, <<60, 60>>}
+                           \cup (IF kind = "expression-custom" THEN {<<45, 62>>, <<61, 62>>, <<45, 45>>, <<45, 61>>} ELSE {})
 
 AllDigits(s, a, b) == a <= b /\ \A i \in a .. b : Digit(s[i])
 \* position of the first occurrence of c in s, 0 if none
@@ -56,12 +58,12 @@ IsComment(kind, s) ==
 SymbolChar(kind, c) ==    \* characters handed to the symbol state
   /\ c > 32 /\ c <= (IF kind = "generic" THEN 255 ELSE 65534) /\ ~Latin(c) /\ ~Digit(c) /\ c \notin {34, 39}
   /\ (kind = "generic" => c \notin {35, 45, 46} /\ ~(c >= 192))
-  /\ (kind = "expression" => c \notin {95, 46, 47} /\ ~(c >= 192 /\ c <= 255))    \* a non-Latin-1 character that starts a token is a symbol
+  /\ (kind # "generic" => c \notin {95, 46, 47} /\ ~(c >= 192 /\ c <= 255))    \* a non-Latin-1 character that starts a token is a symbol
 
 WellFormed(kind, cls, s) ==
   CASE cls = "word"    -> Len(s) >= 1 /\ WordStart(kind, s[1]) /\ (\A i \in 2 .. Len(s) : WordPart(kind, s[i]))
-                          /\ (kind = "expression" => UpperSeq(s) \notin Keywords)
-    [] cls = "keyword" -> kind = "expression" /\ UpperSeq(s) \in Keywords
+                          /\ (kind # "generic" => UpperSeq(s) \notin Keywords)
+    [] cls = "keyword" -> kind # "generic" /\ UpperSeq(s) \in Keywords
     [] cls = "integer" -> IsInteger(kind, s)
     [] cls = "float"   -> IsFloat(kind, s)
     [] cls = "quoted"  -> IsQuoted(kind, s, 39)
@@ -74,7 +76,7 @@ WellFormed(kind, cls, s) ==
 \* token type the lexeme must be reported with
 TypeOf(kind, cls) ==
   CASE cls = "word" -> 9 [] cls = "keyword" -> 10 [] cls = "integer" -> 4 [] cls = "float" -> 3
-    [] cls = "quoted" -> 8 [] cls = "dquoted" -> (IF kind = "expression" THEN 9 ELSE 8)
+    [] cls = "quoted" -> 8 [] cls = "dquoted" -> (IF kind # "generic" THEN 9 ELSE 8)
     [] cls = "comment" -> 12 [] cls = "ws" -> 11 [] cls = "symbol" -> 7
 
 \* May lexeme <<c1, s1>> be followed directly by <<c2, s2>>?  (TRUE only when maximal munch cannot join or re-cut them.)
@@ -82,14 +84,15 @@ CanAbut(kind, c1, s1, c2, s2) ==
   LET b == s2[1]
       last == s1[Len(s1)]
   IN CASE c1 \in {"word", "keyword"} -> ~WordPart(kind, b)
-       [] c1 \in {"integer", "float"} -> ~Digit(b) /\ b # 46 /\ (kind = "expression" => b \notin {101, 69})
+       [] c1 \in {"integer", "float"} -> ~Digit(b) /\ b # 46 /\ (kind # "generic" => b \notin {101, 69})
        [] c1 \in {"quoted", "dquoted"} -> kind = "generic" \/ b # last
        [] c1 = "comment" -> IF kind = "generic" THEN b \in {10, 13} ELSE TRUE
        [] c1 = "ws" -> ~WsChar(b)
        [] c1 = "symbol" ->
             IF Len(s1) > 1 THEN TRUE
             ELSE /\ (last \in {60, 62, 33, 61} => b \notin {60, 61, 62})
-                 /\ (last = 45 => kind = "expression" \/ (~Digit(b) /\ b # 46))
+                 /\ (last = 45 => kind # "generic" \/ (~Digit(b) /\ b # 46))
+                 /\ (last = 45 /\ kind = "expression-custom" => b \notin {62, 61, 45})
                  /\ (last = 46 => ~Digit(b))
                  /\ (last = 47 => kind = "generic" \/ b # 42)
 =============================================================================
